@@ -92,3 +92,134 @@ def c07_deltas(model, meta):
         except Exception as e:  # noqa: BLE001
             res, exc = None, e
     return {"env": {"t1": t1, "t2": t2, "n": len(t1)}, "result": res, "exc": exc}
+
+
+# ---------------------------------------------------------------------------
+# fake procfs helpers
+# ---------------------------------------------------------------------------
+
+import contextlib
+import shutil
+import tempfile
+import warnings
+
+
+@contextlib.contextmanager
+def fake_procfs(files):
+    """temporary procfs tree {relative path: bytes}; psutil.PROCFS_PATH points at it"""
+    import psutil
+    d = tempfile.mkdtemp(prefix="vfproc_")
+    try:
+        for rel, content in files.items():
+            p = os.path.join(d, rel)
+            os.makedirs(os.path.dirname(p), exist_ok=True)
+            with open(p, "wb") as f:
+                f.write(content)
+        if "stat" not in files:
+            with open(os.path.join(d, "stat"), "wb") as f:
+                f.write(b"cpu  1 2 3 4 5 6 7 8 9 10\ncpu0 1 2 3 4 5 6 7 8 9 10\nbtime 1700000000\n")
+        old = psutil.PROCFS_PATH
+        psutil.PROCFS_PATH = d
+        try:
+            yield d
+        finally:
+            psutil.PROCFS_PATH = old
+    finally:
+        shutil.rmtree(d, ignore_errors=True)
+
+
+def meminfo_from_model(model, keys):
+    M = {}
+    lines = []
+    for k in keys:
+        nm = k.decode().rstrip(":").replace("(", "_").replace(")", "")
+        if model.get(f"has_{nm}") is True:
+            v = int(model.get(f"val_{nm}", 0) or 0)
+            v = max(0, v) // 1024 * 1024
+            M[k] = v
+            lines.append(k + b"   " + str(v // 1024).encode() + b" kB\n")
+    return M, b"".join(lines)
+
+
+MEMKEYS = [b'MemTotal:', b'MemFree:', b'Buffers:', b'Cached:', b'SReclaimable:', b'Shmem:', b'MemShared:',
+           b'Active:', b'Inactive:', b'Inact_dirty:', b'Inact_clean:', b'Inact_laundry:', b'Slab:',
+           b'MemAvailable:', b'Active(file):', b'Inactive(file):', b'SwapTotal:', b'SwapFree:']
+
+
+class _Ghost(dict):
+    pass
+
+
+@runner("c08:virtual_memory")
+def c08_vm(model, meta):
+    import psutil
+    from psutil import _pslinux
+    M, text = meminfo_from_model(model, MEMKEYS)
+    log = []
+    # modular replay: the callee calculate_avail_vmem is under its own contract; here it is
+    # stubbed to return the estimate of the counter-model (any int is a possible estimate:
+    # container-distorted figures give > total, large zone watermarks give < 0)
+    est = int(model["est"]) if "est" in model else None
+    with fake_procfs({"meminfo": text}):
+        with warnings.catch_warnings(record=True) as ws:
+            warnings.simplefilter("always")
+            try:
+                if est is not None:
+                    with mock.patch.object(_pslinux, "calculate_avail_vmem", lambda mems: est):
+                        res, exc = _pslinux.virtual_memory(), None
+                else:
+                    res, exc = _pslinux.virtual_memory(), None
+            except Exception as e:  # noqa: BLE001
+                res, exc = None, e
+        log = [("warn", str(w.message)) for w in ws]
+        if est is None:
+            try:
+                est = _pslinux.calculate_avail_vmem(dict(M))
+            except Exception:  # noqa: BLE001
+                est = 0
+    return {"env": {"M": M, "log": log, "__ghost__": {"est": est}}, "result": res, "exc": exc,
+            "meminfo": text.decode(), "stubbed_estimate": est}
+
+
+@runner("c08:swap_memory")
+def c08_swap(model, meta):
+    from psutil import _pslinux
+    M, text = meminfo_from_model(model, [b"SwapTotal:", b"SwapFree:"])
+    cfg = cfg_of(meta)
+    iin, iout = int(model.get("iin", -1)), int(model.get("iout", -1))
+    vin, vout = int(model.get("vin", 0)), int(model.get("vout", 0))
+    n = max(iin, iout) + 2
+    lines = [b"nr_free_pages 1\n"] * n
+    if iin >= 0:
+        lines[iin] = b"pswpin %d\n" % vin
+    if iout >= 0:
+        lines[iout] = b"pswpout %d\n" % vout
+    files = {"meminfo": text}
+    vm_ok = str(cfg.get("vmstat")) == "True"
+    if vm_ok:
+        files["vmstat"] = b"".join(lines)
+    st, sf, su = int(model.get("si_total", 0)), int(model.get("si_free", 0)), int(model.get("si_unit", 1))
+    with fake_procfs(files):
+        with mock.patch.object(_pslinux.cext, "linux_sysinfo", lambda: (0, 0, 0, 0, st, sf, su)):
+            with warnings.catch_warnings(record=True) as ws:
+                warnings.simplefilter("always")
+                try:
+                    res, exc = _pslinux.swap_memory(), None
+                except Exception as e:  # noqa: BLE001
+                    res, exc = None, e
+    log = [("warn", str(w.message)) for w in ws]
+    return {"env": {"M": M, "log": log, "iin": iin, "iout": iout, "vin": vin, "vout": vout, "vm_ok": vm_ok,
+                    "si_total": st * su, "si_free": sf * su}, "result": res, "exc": exc}
+
+
+@runner("c08:usage_percent")
+def c08_usage(model, meta):
+    from psutil import _common
+    used, total = num(model.get("used")), num(model.get("total"))
+    cfg = cfg_of(meta)
+    r = None if str(cfg.get("round")) == "None" else int(cfg["round"])
+    try:
+        res, exc = _common.usage_percent(used, total, round_=r), None
+    except Exception as e:  # noqa: BLE001
+        res, exc = None, e
+    return {"env": {"used": used, "total": total, "round_": r}, "result": res, "exc": exc}
